@@ -119,6 +119,9 @@ SS_HIST_QUICK = [
     SSCfg("NTR", 3, "less", 5, "greater", "set", "exact", std="c++20"),  # operator<=>, erase_if
     SSCfg("TC4", 40, "less", 48, "coarse", "set", "amc"),  # large inline capacities (more than 32 inline elements)
     SSCfg("TR", 6, "coarse", 12, "less", "flat", "basic"),
+    # transparent comparator: heterogeneous lookups (int keys, and keys equivalent to a run of several elements), both backing sets
+    SSCfg("TC4", 4, "tless", 6, "less", "flat", "basic"),
+    SSCfg("NTR", 3, "tless", 5, "tless", "set"),
 ]
 SS_HIST_THOROUGH = [
     SSCfg("NTR", 8, "coarse", 4, "greater", "flat"),
